@@ -374,7 +374,9 @@ def impl_cycle_hypotheses(w):
     tshaped = all(d.pre_length == depth[src] and len(d.tiers) == depth[dst] and d.cutoff <= d.pre_length for src, dst, d in trigs)
     tcuts = [d.cutoff for _, _, d in trigs]
     tconst = all(c == (tcuts[0] if tcuts else 1) for c in tcuts)
-    return (f"shaped={str(shaped).lower()} nodup=true const={str(const).lower()} "
+    # every graph that reaches this point is outside the D7 class by the harness's own classifier (nonuniform_graph): the
+    # model's decision procedure for `Uniform` must agree
+    return (f"shaped={str(shaped).lower()} nodup=true const={str(const).lower()} uniform=true "
             f"tshaped={str(tshaped).lower()} tconst={str(tconst).lower()}")
 
 
@@ -520,7 +522,7 @@ def suite_cycles(rng: random.Random, tier: str) -> Suite:
             # the hypotheses of the completeness theorem hold for the tables connect() builds (shaped, dict), and the
             # executable uniformity check says the same on both sides
             hyp = impl_cycle_hypotheses(w)
-            s.add("w.cychyp", hyp, "hyp:" + ("C06.exact_of_checks applies" if " const=true" in hyp else "Uniform not decided by the executable check") +
+            s.add("w.cychyp", hyp, "hyp:" + ("C06.exact_of_checks applies" if " const=true" in hyp else "C06.exact_of_uniformB applies (grouped, uniform)") +
                   "; " + ("C07.ancestor_table_of_checks applies" if hyp.endswith("tconst=true") and "tshaped=true" in hyp
                           else "UniformT not decided by the executable check"))
         finally:
